@@ -52,6 +52,8 @@ def run(cmd, env=None, cwd=None, timeout=None, quiet=False):
 def build_harness(mode="hooks"):
     """Build the harness against REPO's current working tree. Returns path of the vh binary
     or None (build failure => the run is inconclusive, not a violation)."""
+    if mode == "hooks" and os.environ.get("VERIF_SANITIZER") == "asan":
+        mode = "asan"
     env = base_env()
     tdir = target_dir(mode)
     env["CARGO_TARGET_DIR"] = tdir
@@ -82,7 +84,10 @@ def build_harness(mode="hooks"):
 
 
 def build_repo_bins(profile="debug", bins=None):
-    """Build the repository's own binaries from REPO into target/repo. Returns dir or None."""
+    """Build the repository's own binaries from REPO into target/repo. Returns dir or None.
+    With VERIF_SANITIZER=asan in the environment the AddressSanitizer build is used instead."""
+    if os.environ.get("VERIF_SANITIZER") == "asan":
+        return build_repo_bins_asan(bins)
     env = base_env()
     tdir = target_dir("repo")
     env["CARGO_TARGET_DIR"] = tdir
@@ -109,6 +114,23 @@ def clean_replays(pid, tier):
             os.unlink(f)
         except OSError:
             pass
+
+
+def build_repo_bins_asan(bins=None):
+    env = base_env()
+    tdir = target_dir("repo-asan")
+    env["CARGO_TARGET_DIR"] = tdir
+    env["RUSTFLAGS"] = GUARD + " -Zsanitizer=address -Cforce-frame-pointers=yes"
+    cmd = ["cargo", "+nightly", "build", "--offline", "--target", "x86_64-unknown-linux-gnu", "--manifest-path", os.path.join(REPO, "Cargo.toml")]
+    for b in bins or []:
+        cmd += ["-p", b]
+    t0 = time.time()
+    rc, out = run(cmd, env=env, quiet=True)
+    if rc != 0:
+        sys.stdout.write(out[-4000:])
+        return None
+    sys.stdout.write("[build] repo binaries with AddressSanitizer %.1fs\n" % (time.time() - t0))
+    return os.path.join(tdir, "x86_64-unknown-linux-gnu", "debug")
 
 
 def dispatch(pid, tier, replay):
@@ -140,7 +162,10 @@ def dispatch(pid, tier, replay):
         return rc
     if pid in PY_ENGINE:
         mod = __import__(PY_ENGINE[pid])
-        return mod.main(tier, replay)
+        rc = mod.main(tier, replay)
+        if rc == 0 and tier == "thorough" and not replay and pid in ("C16", "C18"):
+            rc = overlays(pid, tier)
+        return rc
     print("unknown property %s" % pid)
     return 3
 
